@@ -15,6 +15,9 @@
 (*   "P4"       calls helper 1 and returns its value (6); custom accepts   *)
 (*   "P5"       has a local call, returns the caller/callee frame distance *)
 (*   "P7"       returns the first byte of the packet it is run on          *)
+(*   "P8"       fixed-metadata VM: returns data_end - data read from the   *)
+(*              slots of layout "A" (the length of the packet of THIS      *)
+(*              execution, whatever earlier executions were given)         *)
 (*   "P9"       fixed-metadata VM: reads the slot of layout "A"            *)
 (*   "PX"       refused by default, custom and rejectAll (never offered    *)
 (*              under acceptAll: it is not safe to run)                    *)
@@ -30,17 +33,20 @@ CONSTANTS Kind         \* "raw" | "nodata" | "mbuff" | "fixed"
 \* (programs whose run-time errors would make compiled code fault are only offered to the kinds on
 \* which they are error-free: the compiled engines' lack of run-time checks is documented)
 Progs     == {"P1", "P2", "P3", "P4", "P5", "PX"} \cup (IF Kind = "nodata" THEN {} ELSE {"P7"})
-                                                   \cup (IF Kind = "fixed" THEN {"P9"} ELSE {})
+                                                   \cup (IF Kind = "fixed" THEN {"P8", "P9"} ELSE {})
 \* "default" is only the initial verifier: the crate does not export it, so it cannot be re-installed
 Verifiers == {"acceptAll", "rejectAll", "custom"}
 Layouts   == IF Kind = "fixed" THEN {"A", "C"} ELSE {"A"}
-Packets   == {"pa", "pb"}            \* two different packets (first bytes 0x11 / 0x22, lengths 16 / 24)
+\* packets: "pa" (first byte 0x11, 16 bytes), "pb" (0x22, 24 bytes, elsewhere), "pc" (the first 8 bytes
+\* of "pa": same start address, other length), "pe" (empty)
+Packets   == {"pa", "pb", "pc", "pe"}
+PLen(k)   == CASE k = "pa" -> "16" [] k = "pb" -> "24" [] k = "pc" -> "8" [] k = "pe" -> "0"
 None      == "none"
 
 Accepts(v, p) ==
   CASE v = "acceptAll" -> p # "PX"
     [] v = "rejectAll" -> FALSE
-    [] v = "default"   -> p \in {"P1", "P2", "P4", "P5", "P7", "P9"}
+    [] v = "default"   -> p \in {"P1", "P2", "P4", "P5", "P7", "P8", "P9"}
     [] v = "custom"    -> p \in {"P1", "P2", "P4"}
 
 VARIABLES loaded,     \* program loaded, or None
@@ -67,9 +73,12 @@ Val(p, e, k, hreg, cal, lay) ==
     [] p = "P3" -> "3"
     [] p = "P4" -> IF hreg THEN "6" ELSE "err"
     [] p = "P5" -> IF e = "jit" THEN "any" ELSE IF cal THEN "64" ELSE "256"
-    [] p = "P7" -> IF Kind = "nodata" THEN "err" ELSE IF k = "pa" THEN "17" ELSE "34"
+    [] p = "P7" -> IF Kind = "nodata" THEN "err"
+                   ELSE IF k = "pe" THEN (IF e = "interp" THEN "err" ELSE "any")   \* (never run compiled: it would fault)
+                   ELSE IF k = "pb" THEN "34" ELSE "17"
+    [] p = "P8" -> IF Kind # "fixed" THEN "err" ELSE IF lay = "A" THEN PLen(k) ELSE "any"
     [] p = "P9" -> IF Kind # "fixed" THEN "err"
-                   ELSE IF lay = "A" THEN "pkt" ELSE "0"
+                   ELSE IF lay = "A" THEN (IF k = "pe" THEN "any" ELSE "pkt") ELSE "0"
     [] OTHER -> "err"
 
 Init == /\ loaded = None /\ verifier = "default" /\ jit = None /\ cl = None /\ jitH = FALSE
@@ -178,6 +187,11 @@ Values(p) == {Val(p, e, k, h, c, lay) : e \in {"interp", "jit", "cl"}, k \in Pac
 RunsLatestLoaded ==
   last.op \in {"exec", "exec_jit", "exec_cl"} /\ last.res # "err" => loaded # None /\ last.res \in Values(loaded)
 
+\* an execution's result is a function of the program, the helpers/calculator/layout in force and
+\* the packet passed in - of nothing else (in particular not of earlier executions)
+ResultIsFunctionOfInputs ==
+  last.op = "exec" /\ loaded # None => last.res = Val(loaded, "interp", last.arg, helper, calc, layout)
+
 \* no program, or nothing compiled: errors
 NoProgIsError == last.op \in {"exec", "exec_jit", "exec_cl", "jit_compile", "cl_compile"} /\ loaded = None => last.res = "err"
 NotCompiledIsError == (last.op = "exec_jit" /\ jit = None) \/ (last.op = "exec_cl" /\ cl = None) => last.res = "err"
@@ -193,5 +207,5 @@ FailedCallIsNoOp ==
 \* it is accepted by the CURRENT verifier (set_verifier re-verifies; set_program verifies)
 LoadedWasVerified == loaded # None => Accepts(verifier, loaded)
 
-Inv == TypeOK /\ RunsLatestLoaded /\ NoProgIsError /\ NotCompiledIsError /\ ArtefactsFromLoads /\ LoadedWasVerified
+Inv == TypeOK /\ RunsLatestLoaded /\ ResultIsFunctionOfInputs /\ NoProgIsError /\ NotCompiledIsError /\ ArtefactsFromLoads /\ LoadedWasVerified
 =============================================================================
